@@ -71,7 +71,7 @@ def main():
     a = ap.parse_args()
     props = a.props.split(",") if a.props else built_props()
     seeds = a.seeds.split(",") if a.seeds else sorted(os.listdir(SEEDS))
-    with ProcessPoolExecutor(max_workers=8) as ex:
+    with ProcessPoolExecutor(max_workers=14) as ex:
         results = list(ex.map(run_one, [(s, props) for s in seeds]))
     ndet = 0
     for seed, res in results:
